@@ -20,3 +20,5 @@ pub fn by_id(id: &str) -> Option<&'static dyn Prop> {
         _ => None,
     }
 }
+
+pub const ALL: &[&str] = &["C02", "C05", "C08", "C09", "C12", "C14", "C17"];
